@@ -1,6 +1,6 @@
 """C11 - every computed route is a real, loop-free, constraint-respecting shortest path.
 
-All connected site graphs on 3-5 ROADM sites up to isomorphism x length assignments (ties / distinct / long shortcut) x
+All connected site graphs on 3-5 ROADM sites up to isomorphism x length assignments (ties / distinct / long shortcut / near ties between split fibres) x
 link styles (plain, in-line amplifier, fused) x every ordered (source, destination) pair x every ordered include list of
 <= 2 (thorough: 3) nodes drawn from {ROADMs, line elements of two links, unknown name, a transceiver} x hop types.
 Real requests_from_json -> correct_json_route_list -> compute_path_dsjctn on the designed network with OMS built (as
@@ -57,6 +57,9 @@ def run_case(case):
         lists += list(itertools.permutations(cands, k)) if k <= 2 else \
             [x for x in itertools.permutations(cands[:7], k)]
     lists += [(x, x) for x in cands[:3]]
+    if max_len < 3:
+        # every ordered triple of ROADMs (the full 3-lists over the wider alphabet are left to the thorough tier)
+        lists += list(itertools.permutations([u for u in cands if u.startswith('roadm ') and u != 'roadm Nowhere'], 3))
     pairs = [(s.uid, d.uid) for s in trx for d in trx if s is not d]
     if case.get('pairs'):
         pairs = pairs[:case['pairs']]
@@ -179,7 +182,7 @@ def main(rep, tier, seed):
     for gi, (n, edges) in enumerate(graphs):
         if tier == 'quick' and n == 5 and (gi + seed) % 4 != 0:
             continue
-        for li, lengths in enumerate(['equal', 'distinct', 'shortcut']):
+        for li, lengths in enumerate(['equal', 'distinct', 'shortcut', 'tie_minus', 'tie_plus']):
             st = [styles[(gi + li + seed) % 4]] if tier == 'quick' else styles
             for style in st:
                 cases.append(dict(n=n, edges=[list(e) for e in edges], lengths=lengths, style=style,
@@ -188,7 +191,7 @@ def main(rep, tier, seed):
     rep.absorb(results)
     rep.cov['bound'] = (f'{len(cases)} networks (connected graphs on 3-5 ROADM sites from the graph atlas x length assignments x '
                         f'link styles), every ordered source/destination pair, every ordered include list of <= '
-                        f'{2 if tier == "quick" else 3} nodes from the per-network alphabet x hop types STRICT/LOOSE/mixed')
+                        f'{2 if tier == "quick" else 3} nodes from the per-network alphabet (+ every ordered ROADM triple) x hop types STRICT/LOOSE/mixed')
     rep.cov['space_size'] = len(cases)
     rep.cov['evaluations'] = sum(r.get('transitions', 0) for r in results)
     rep.cov['exhaustive'] = not stats['budget_hit'] and len(results) == len(cases)
